@@ -207,6 +207,28 @@ func NullConstScalar(t ScalarType) ConstScalar {
   return NewConstScalar(t, 0.0)
 }
 
+// Convert a to a constant scalar of type t. The value is converted directly
+// to the target type. A detour via float64, as taken by NewConstScalar,
+// is not exact for integers beyond 2^53.
+func convertConstScalar(a ConstScalar, t ScalarType) ConstScalar {
+  switch t {
+  case ConstInt8Type   : return ConstInt8   (a.GetInt8   ())
+  case ConstInt16Type  : return ConstInt16  (a.GetInt16  ())
+  case ConstInt32Type  : return ConstInt32  (a.GetInt32  ())
+  case ConstInt64Type  : return ConstInt64  (a.GetInt64  ())
+  case ConstIntType    : return ConstInt    (a.GetInt    ())
+  case ConstFloat32Type: return ConstFloat32(a.GetFloat32())
+  case ConstFloat64Type: return ConstFloat64(a.GetFloat64())
+  }
+  if _, ok := scalarRegistry[t]; ok {
+    // Set() reads a with the getter of the target type
+    r := NullScalar(t)
+    r.Set(a)
+    return r
+  }
+  return NewConstScalar(t, a.GetFloat64())
+}
+
 /* magic scalar constructors
  * -------------------------------------------------------------------------- */
 
